@@ -498,6 +498,11 @@ def _integer_formatting(ctx):
     r1_formatting(ctx)       # every int column (and int list) is written through ints_to_strings: exact digit counts, no floating logarithm
 
 
+
+def _round7_digit_matrix(ctx):
+    from .c18 import r3_digit_matrix
+    r3_digit_matrix(ctx)      # what was written is read back through the right-aligned digit matrix: a window that is not aligned to the END of its field misreads the number
+
 RULES = [
     ("C03-R1", r1_writer_exhaustive),
     ("C03-R2", r2_header_once),
@@ -512,4 +517,5 @@ RULES = [
     ("C03-R9", _shared_tables_not_written),
     ("C03-R10", _late_bound_constants),
     ("C03-R11", _integer_formatting),
+    ("C03-R12", _round7_digit_matrix),
 ]
